@@ -97,10 +97,18 @@ def run_shard(spec, acc):
 def _eval(ev, mods, imps, cfg, acc, nontrivial_key=None, list_form=None):
     HUB.case = {"kind": "rule", "mods": mods, "imps": imps, "cfg": cfg, "list_form": list_form}
     before = acc.counters["c01_judged"]
-    run(mk_rule(cfg, list_form), ev)
+    run(mk_rule(cfg, list_form, retarget=_decoy(ev, mods, cfg)), ev)
     acc.evaluated()
     if imps and acc.counters["c01_judged"] > before:
         acc.nontrivial(nontrivial_key if nontrivial_key is not None else {"m": mods, "i": imps, "c": cfg})
+
+
+def _decoy(ev, mods, cfg):
+    """Every seventh rule (by content) is built by re-targeting a kept, already applied rule prefix."""
+    if (len(cfg["subs"]) * 5 + len(cfg["objs"]) * 3 + len(cfg["subs"][0][1]) + (len(cfg["objs"][0][1]) if cfg["objs"] else 0) + len(cfg["verb"])) % 7:
+        return None
+    others = [m for m in mods if "." in m and m not in {n for _, n in cfg["objs"]}]
+    return (ev, others[len(others) // 2]) if others else None
 
 
 def exhaustive(spec, acc):
@@ -255,6 +263,8 @@ def floors(acc, tier):
                 why.append(f"shape {s} never observed with outcome {o}")
     if acc.counters["rule_objects_switched_between_anything_aliases"] < 100:
         why.append(f"only {acc.counters['rule_objects_switched_between_anything_aliases']} rule objects switched between the two 'anything' aliases")
+    if acc.counters["rules_retargeted_after_application"] < 100:
+        why.append(f"only {acc.counters['rules_retargeted_after_application']} rules built by re-targeting an applied rule prefix")
     if acc.counters["c01_judged_nested_lists"] < 100:
         why.append(f"only {acc.counters['c01_judged_nested_lists']} rules with nested module lists on one side judged")
     if acc.counters["c01_judged"] < 10000:
